@@ -105,6 +105,16 @@ def run_impl(key, value):
             return ("crash", "second-item-from-same-value-objects:" + type(e).__name__, repr(e)[:160])
         if vals2 != vals:
             return ("crash", "second-item-from-same-value-objects-differs", repr((vals, vals2))[:200])
+        # ... and an unmodified item built from the same value objects afterwards has the values a fresh unmodified item has
+        if "re" in key.split("|")[1:]:  # values of a regular expression item are read without escape processing: no unmodified counterpart
+            return ("ok", vals, "and" if item.value_linking is ConditionAND else "or", bool(item.negated))
+        try:
+            plain = canon([R.project_value(v) for v in SigmaDetectionItem("f", [], list(item.original_value)).value])
+            fresh = canon([R.project_value(v) for v in SigmaDetectionItem.from_mapping("f", value).value])
+        except Exception as e:
+            return ("crash", "plain-item-from-same-value-objects:" + type(e).__name__, repr(e)[:160])
+        if plain != fresh:
+            return ("crash", "value-objects-changed-by-the-modifiers", repr((fresh, plain))[:200])
     return ("ok", vals, "and" if item.value_linking is ConditionAND else "or", bool(item.negated))
 
 
